@@ -10,6 +10,10 @@ class Row(models.Model):
     u = models.CharField(max_length=40, null=True)
     b = models.BooleanField(null=True)
     d = models.DateTimeField(null=True)
+    e = models.DateTimeField(null=True)
+    dd = models.DateField(null=True)
+    tt = models.TimeField(null=True)
+    du = models.DurationField(null=True)
 
     class Meta:
         app_label = "djapp"
